@@ -61,6 +61,9 @@ func (o *DeployOptions) Validate() error {
 	if o.Name == "" {
 		return ErrEmptyAppName
 	}
+	if !isKeyElement(o.Name) {
+		return ErrInvalidAppName
+	}
 	if o.Podname == "" {
 		return ErrEmptyPodName
 	}
@@ -166,6 +169,9 @@ func (o *ReplaceOptions) Validate() error {
 	if o.DeployOptions.Name == "" {
 		return ErrEmptyAppName
 	}
+	if !isKeyElement(o.DeployOptions.Name) {
+		return ErrInvalidAppName
+	}
 	return o.DeployOptions.Entrypoint.Validate()
 }
 
@@ -201,6 +207,9 @@ type AddNodeOptions struct {
 func (o *AddNodeOptions) Validate() error {
 	if o.Nodename == "" {
 		return ErrEmptyNodeName
+	}
+	if !isKeyElement(o.Nodename) {
+		return ErrInvalidNodeName
 	}
 	if o.Podname == "" {
 		return ErrEmptyPodName
